@@ -316,6 +316,15 @@ PIECES = ["# c\n", "\n", "match x:\n    case 1: pass\n", "type X = int\n", "x = 
           "y = (\n# c\n1,\n\n2)\n", "if a:\n    # c\n\n    b\n# d\n", "match = type\n", "match (x):  # c\n  # d\n  case [a, *r]:  # e\n\n    pass\n",
           "type Y[T] = (  # c\n    T)\n", "print(match, case, type)  # c\n"]
 
+# continuation lines inside brackets: their leading whitespace is free-form (any mix of blanks, tabs, form feeds, also a
+# tab after a space, which is an error only in real indentation); with comments and blank lines in between
+BRACKET_WS = [" ", "\t", " \t", "\t ", "  \t  ", "\x0c", " \x0c\t", ""]
+BRACKET_CORPUS = []
+for _w in BRACKET_WS:
+    BRACKET_CORPUS += [f"x = [\n{_w}1,\n{_w}2,\n{_w}]\n", f"f(a,\n{_w}b)\n", "{\n" + _w + "1: 2}\n", f"x = (1,\n{_w}# c\n{_w}2)\n",
+                       f"if a:\n    y = [\n{_w}1,\n\n{_w}2]\n    z = 3\n", f"def f(a,\n{_w}b=1, *,\n{_w}c): pass\n",
+                       f"x = [1,\r\n{_w}2]\r\n", f"x = (\n{_w}1\n{_w})[\n{_w}0]\n", f"match (\n{_w}x):\n    case [\n{_w}a]: pass\n"]
+
 LAYOUT_CORPUS = [
     "# only a comment", "# a\n# b\n", "\n\n\n", "x  # trailing", "x\n# trailing comment line", "x\n\n\n# c\n\n", "  # indented comment\nx\n",
     "if a:\n    b\n\n\n    # c\n    c\n", "if a:\n    b\n# dedented comment\n    c\n", "if a:\n    b\n  # odd indent comment\n    c\n",
@@ -518,7 +527,8 @@ def streams(ctx):
 
     # 3. layouts: comments, blank lines, soft keywords after comment lines
     L = 3 if quick else 4
-    items = [("m", s) for s in LAYOUT_CORPUS] + [("i", s) for s in LAYOUT_CORPUS[::3]] + [("m", s) for s in _layout_exhaustive(L)]
+    items = ([("m", s) for s in LAYOUT_CORPUS] + [("i", s) for s in LAYOUT_CORPUS[::3]] + [("m", s) for s in BRACKET_CORPUS]
+             + [("m", s) for s in _layout_exhaustive(L)])
     four_builds("layout", items, "exhaustive", exhaustive=True,
                 note="comment-/blank-line-heavy texts; all sequences of <=%d pieces from a %d-piece alphabet with soft keywords" % (L, len(PIECES)))
 
